@@ -74,6 +74,15 @@ Theorem C11_read_into_is_arrival_independent : forall c m mw p i n f l1 k d l2, 
 Proof. exact into_result_is_determined. Qed.
 Print Assumptions C11_read_into_is_arrival_independent.
 
+Theorem C11_read_until_is_arrival_independent : forall c m mw p i dl mx f l1 d l2, run_ok (init c m mw) p ->
+  nth_error p i = Some (ORead (RUntil dl mx)) ->
+  nth_error (rets (init c m mw) p) i = Some (RetFut f) ->
+  log (run (init c m mw) p) = l1 ++ EvDone f (OData d) :: l2 ->
+  exists loc, find dl (skipn (length (consumed l1)) (stream_of p)) = Some loc /\
+              d = firstn (loc + length dl) (skipn (length (consumed l1)) (stream_of p)).
+Proof. exact until_result_is_determined. Qed.
+Print Assumptions C11_read_until_is_arrival_independent.
+
 (* The model's explicit failure paths are dead: no internal assertion (_consume's
    `assert loc <= self._read_buffer_size`, the write loop bound) fails, and the read loop's fuel
    always suffices. *)
